@@ -272,6 +272,11 @@ def check(ctx):
     for cfg in CONFIGS:
         facts = ctx.facts(cfg)
         check_X1(ctx, facts, cfg)
-        check_X2(ctx, facts, cfg)
+        # SEM: one exchange of the client interpreted against every outcome of the network, with and without a configured timeout
+        # (client_abs): every network effect inside the one time bound, the configured duration, elapsed -> timeout status, the request
+        # sent once, the caller gets what THIS response carries.  Subsumes X2, which is evaluated only when a construct is not modelled.
+        import client_abs
+        if not client_abs.check_exchange(ctx, facts, 'C14.SEM', cfg + '|'):
+            check_X2(ctx, facts, cfg)
         check_X3(ctx, facts, cfg)
         check_X4(ctx, facts, cfg)
